@@ -61,6 +61,9 @@ type TraditionalDnsConn struct {
 	// It can identify c is dead or buggy in some circumstances. e.g. Network is dropped
 	// and the sockets were still open because no fin or rst was received.
 	waitingResp atomic.Bool
+	// deadlineMu serializes the updates of waitingResp and the read deadline of c,
+	// so that the idle deadline can never overwrite a waiting-reply deadline.
+	deadlineMu sync.Mutex
 }
 
 type TraditionalDnsConnOpts struct {
@@ -118,11 +121,11 @@ func (dc *TraditionalDnsConn) exchange(ctx context.Context, q []byte) (*[]byte, 
 	// If a query was sent, server should have a reply (even not for this query) in a short time.
 	// This indicates the connection is healthy. Otherwise, this connection might be dead.
 	// The Read deadline will be refreshed in DnsConn.readLoop() after every successful read.
-	// Note: There has a race condition in this SetReadDeadline() call and the one in
-	// readLoop(). It's not a big problem.
+	dc.deadlineMu.Lock()
 	if dc.waitingResp.CompareAndSwap(false, true) {
 		dc.c.SetReadDeadline(time.Now().Add(waitingReplyTimeout))
 	}
+	dc.deadlineMu.Unlock()
 
 	var resend <-chan time.Time
 	if !dc.isTcp {
@@ -191,15 +194,30 @@ func (dc *TraditionalDnsConn) readResp() (payload *[]byte, err error) {
 func (dc *TraditionalDnsConn) readLoop() {
 
 	for {
-		dc.c.SetReadDeadline(time.Now().Add(dc.idleTimeout))
+		// Don't overwrite the waiting-reply deadline that exchange() may have just set.
+		dc.deadlineMu.Lock()
+		if !dc.waitingResp.Load() {
+			dc.c.SetReadDeadline(time.Now().Add(dc.idleTimeout))
+		}
+		dc.deadlineMu.Unlock()
+
 		r, err := dc.readResp()
 		if err != nil {
 			dc.CloseWithErr(fmt.Errorf("read err, %w", err)) // abort this connection.
 			return
 		}
-		dc.waitingResp.Store(false)
-
 		rid := binary.BigEndian.Uint16(*r)
+
+		// The connection is alive. If other queries are still waiting for their replies,
+		// keep expecting a reply in a short time. Otherwise, the connection is idle.
+		dc.deadlineMu.Lock()
+		if dc.hasOtherQuery(rid) {
+			dc.c.SetReadDeadline(time.Now().Add(waitingReplyTimeout))
+		} else {
+			dc.waitingResp.Store(false)
+		}
+		dc.deadlineMu.Unlock()
+
 		resChan := dc.getQueueC(rid)
 		if resChan != nil {
 			select {
@@ -243,6 +261,17 @@ func (dc *TraditionalDnsConn) getQueueC(qid uint16) chan<- *[]byte {
 	dc.queueMu.RLock()
 	defer dc.queueMu.RUnlock()
 	return dc.queue[uint32(qid)]
+}
+
+// hasOtherQuery reports whether the queue has a query other than qid.
+func (dc *TraditionalDnsConn) hasOtherQuery(qid uint16) bool {
+	dc.queueMu.RLock()
+	defer dc.queueMu.RUnlock()
+	n := len(dc.queue)
+	if _, ok := dc.queue[uint32(qid)]; ok {
+		n--
+	}
+	return n > 0
 }
 
 func (dc *TraditionalDnsConn) queueLen() int {
